@@ -44,7 +44,11 @@ class TexMonitor(object):
                     mon._viol(text, r, "ASCII text changed")
                 return r
             mon.judged_full += 1
-            ok, reason, ncmd = texinv.judge(text, r)
+            try:
+                ok, reason, ncmd = texinv.judge(text, r)
+            except Exception as e:  # the oracle must never disturb the library
+                mon.oracle_errors = getattr(mon, "oracle_errors", 0) + 1
+                return r
             mon.commands += ncmd
             if not ok:
                 mon._viol(text, r, reason)
